@@ -7,8 +7,6 @@ package ply
 // ---- C01 breadth: frame-only contracts (the writers do not modify the meshes they are given) ----
 //@ func MeshWriter.Write frameonly
 //@   props C01
-//@ func writeBinaryTriTopo frameonly
-//@   props C01
 //@ func writeAsciiTriTopo frameonly
 //@   props C01
 //@ func Write frameonly
@@ -55,3 +53,29 @@ package ply
 //@   unclaimed safe.slicebounds: a list count of 2^31 or more makes the payload size negative; no prefix of a valid file holds one
 //@   returns err
 //@   ensures payload_bytes_existed: err == nil ==> lpr.lastReadListSize >= 0 && consumed(in) - old(consumed(in)) == old(lpr.property.CountType.Size()) + lpr.lastReadListSize * lpr.property.ListType.Size()
+
+// ---- C04: the binary face records -------------------------------------------------------------------
+// One record per triangle: count byte 3 + three 32-bit indices (13 bytes), and with texture coordinates a
+// count byte 6 + six float32 (38 bytes in all).  The texture coordinate of a corner is the vertex attribute
+// of the vertex that corner refers to, so every read of the attribute is at an index taken from the index
+// buffer (the ArrayIterator.At precondition makes each read an obligation: in range for every well-formed
+// mesh, welded or not).  written(out) is the ghost byte count of the writer.
+
+//@ func writeBinaryTriTopo
+//@   props C01 C04
+//@   modifies ghost written
+//@   requires modeling.wf(model)
+//@   returns err
+//@   ensures size_law_uv: err == nil && model.topology == modeling.TriangleTopology && has(model.v2Data, "TexCoord") ==> written(out) == old(written(out)) + 38 * (len(model.indices) / 3)
+//@   ensures size_law_plain: err == nil && model.topology == modeling.TriangleTopology && !has(model.v2Data, "TexCoord") ==> written(out) == old(written(out)) + 13 * (len(model.indices) / 3)
+//@   ensures other_topologies_write_nothing: model.topology != modeling.TriangleTopology ==> err == nil && written(out) == old(written(out))
+//@   loop 1:
+//@     invariant 0 <= i && i <= len(model.indices) && i % 3 == 0
+//@     invariant len(buf) == 38 && fresh(buf)
+//@     invariant indices != nil && indices.data == model.indices && texData != nil && texData.data == model.v2Data["TexCoord"]
+//@     invariant written(out) == old(written(out)) + 38 * (i / 3)
+//@   loop 2:
+//@     invariant 0 <= i && i <= len(model.indices) && i % 3 == 0
+//@     invariant len(buf) == 13 && fresh(buf)
+//@     invariant indices != nil && indices.data == model.indices
+//@     invariant written(out) == old(written(out)) + 13 * (i / 3)
